@@ -11,7 +11,7 @@ translation run by CPython is the third voter: a case is judged only when specif
 CPython agree."""
 import json
 from ..common import *
-from ..ergprog import to_erg, to_py, cpython_vote, shape
+from ..ergprog import to_erg, to_py, cpython_vote, shape, conc
 
 
 def gen_programs(ctx, quick, tag):
@@ -21,6 +21,21 @@ def gen_programs(ctx, quick, tag):
         raise ToolError(f"ErgProg.tla violates {r.invariant_violated}")
     ctx.tlc_stats(r, "ErgProg grid (exhaustive)")
     grid = r.tagged("G")
+    # unit grid: every template applied to small operands (calls, loops, lists, patterns, conditionals)
+    ru = tlc("lang/MC_ErgProg.tla", cfg="MC_ErgProg_units.cfg", workers=8, coverage=False, heap="8g", tag=tag + "u", timeout=2400)
+    if not ru.ok:
+        raise ToolError(f"ErgProg.tla violates {ru.invariant_violated} (units)")
+    ctx.tlc_stats(ru, "ErgProg unit grid (exhaustive)")
+    units = ru.tagged("G")
+    if quick:
+        import random
+        rnd = random.Random(ctx.seed)
+        by = {}
+        for u in units:
+            ks = [st["k"] + ":" + st["op"] for st in u["prog"] if st["k"] not in ("ilit", "print")]
+            by.setdefault(ks[-1] if ks else "lit", []).append(u)
+        units = [u for k in sorted(by) for u in rnd.sample(by[k], min(len(by[k]), 25))]
+    grid = grid + units
     sims = []
     seen = set()
     for k in range(2 if quick else 10):
@@ -34,6 +49,8 @@ def gen_programs(ctx, quick, tag):
                 sims.append(x)
     sims.sort(key=lambda x: -len(x["prog"]))
     sims = sims[: (250 if quick else 3000)]
+    for c in grid + sims:      # non-ASCII characters travel through TLA+ as placeholders
+        c["out"] = [conc(l) for l in c["out"]]
     return grid, sims
 
 
